@@ -99,6 +99,15 @@ def handle (st : St) (line : String) : St × String :=
     match n.toNat?, k.toNat? with
     | some n, some k => let st' := { st with specs := AList.set st.specs n k }; (st', s!"ok | - | - | {obs st'}")
     | _, _ => (st, "bad-op")
+  | ["shut", n] =>
+    -- `node.shutdown()` for one node (the receiver thread writes a worker off after an undecodable message)
+    if st.dead then (st, "dead") else
+    match n.toNat? with
+    | some n =>
+      let e := ({ st.env with outs := [] } : Env).shutdown n
+      let st' := { st with env := e }
+      (st', s!"ok | {showOuts e.outs} | - | {obs st'}")
+    | none => (st, "bad-op")
   | ["trig"] =>
     if st.dead then (st, "dead") else
     let e := ({ st.env with outs := [] } : Env).shutdownAll st.sched.nodes
